@@ -34,6 +34,7 @@ deriving DecidableEq, Repr, Hashable
 inductive Obs where
   | inv (t : Nat)                 -- `inv t memo`
   | ret (t v e : Nat)             -- `ret t memo v e`
+  | panic (t : Nat)               -- `ret t memo panic`  (never produced by the model)
   | cbin                          -- `cbin`        (the wrapped function was entered; it cannot know by which call)
   | cbout (v e : Nat)             -- `cbout v e`   (… is about to return (v, e))
   | quiesce (pending : List Nat)
@@ -62,6 +63,7 @@ def Ev.obs : Ev → Option Obs
 def Obs.evs (n : Nat) : Obs → List Ev
   | .inv t => [.inv t]
   | .ret t v e => [.ret t v e]
+  | .panic _ => []
   | .cbin => (List.range n).map .cbin
   | .cbout v e => (List.range n).map (.cbout · v e)
   | .quiesce B => [.quiesce B]
@@ -125,6 +127,7 @@ def parseNats : List String → Option (List Nat)
 
 def Obs.parse : List String → Option Obs
   | ["inv", t, "memo"] => do pure (.inv (← t.toNat?))
+  | ["ret", t, "memo", "panic"] => do pure (.panic (← t.toNat?))
   | ["ret", t, "memo", v, e] => do pure (.ret (← t.toNat?) (← v.toNat?) (← e.toNat?))
   | ["cbin"] => some .cbin
   | ["cbout", v, e] => do pure (.cbout (← v.toNat?) (← e.toNat?))
@@ -154,6 +157,7 @@ def monC16memo : ObsMonitor Obs MSt where
     | .ret t v e =>
       -- every caller (the runner included) returns the result of that one call
       if t < ms.ncalls ∧ t ∉ ms.retd ∧ ms.out = some (v, e) then some { ms with retd := t :: ms.retd } else none
+    | .panic _ => none
     | .quiesce B =>
       -- callers block only while the function is running
       if B.isEmpty ∨ (ms.entered = true ∧ ms.out = none) then some ms else none
